@@ -4,6 +4,22 @@ import os, sys, tempfile, shutil, atexit, hashlib, json, random
 VERIF = os.path.abspath(os.path.join(os.path.dirname(__file__), "..", ".."))
 REPO = os.environ.get("GV_REPO", "/repo")
 COQ = os.path.join(VERIF, "coq")
+LOCK = os.path.join(VERIF, ".build.lock")
+if os.path.realpath(REPO) != "/repo":
+    # A check pointed at another tree (a scratch worktree with a seeded change) regenerates Gen/*.v from that tree: it works on a
+    # private copy of the Coq development so that checks of /repo running at the same time keep their own regenerated constants.
+    _priv = os.environ.get("GV_COQ_PRIVATE")
+    if not _priv:
+        import fcntl, subprocess
+        _priv = "/var/tmp/gv-coq-" + hashlib.sha1(os.path.realpath(REPO).encode()).hexdigest()[:10]
+        with open(LOCK, "w") as _f:
+            fcntl.flock(_f, fcntl.LOCK_EX)
+            os.makedirs(_priv, exist_ok=True)
+            subprocess.run(["rsync", "-a", "--delete", COQ + "/", _priv + "/"], check=True)
+            fcntl.flock(_f, fcntl.LOCK_UN)
+        os.environ["GV_COQ_PRIVATE"] = _priv
+    COQ = _priv
+    LOCK = _priv + ".lock"
 THEORIES = os.path.join(COQ, "theories")
 PY = "/venv/bin/python"
 NCPU = int(os.environ.get("GV_JOBS", str(os.cpu_count() or 8)))
